@@ -26,7 +26,7 @@ PLAN = {
     "thorough": {"shards": 16, "shard_timeout": 1500, "case_timeout": 40, "grammars": 600, "agree": 3000, "max_case_timeouts": 20},
 }
 THRESHOLDS = {
-    "quick": {"refined_positions": 3000, "dependent_positions": 100, "agree_values": 2000, "repr:stack": 20, "repr:dsge": 50, "repr:ge": 50, "repr:sge": 50, "repr:tree": 100, "set:mh_kinds_seen": 8},
+    "quick": {"mapped:ge": 200, "mapped:sge": 200, "mapped:dsge": 200, "mapped:stack": 30, "refined_positions": 3000, "dependent_positions": 100, "agree_values": 2000, "repr:stack": 20, "repr:dsge": 50, "repr:ge": 50, "repr:sge": 50, "repr:tree": 100, "set:mh_kinds_seen": 8},
     "thorough": {"refined_positions": 50000, "dependent_positions": 2000, "agree_values": 50000, "set:mh_kinds_seen": 9},
 }
 
@@ -101,6 +101,8 @@ def run_case(case, rec):
         def on_event(ev: workload.Event):
             rec.count("evaluations")
             rec.count(f"op:{ev.op}")
+            if ev.op == "map" and ev.exc is None:
+                rec.count(f"mapped:{ev.repr_kind}")
             if ev.exc is not None:
                 rec.count("op_raised")  # exceptions are judged by C01/C03
                 return
